@@ -67,7 +67,11 @@ func canonical(out []oracle.Polyline, ps []probe, crossEps float64) (string, boo
 }
 
 func checkSettle(r *fw.R, d []float64, rule canvas.FillRule, eps, delta, eta float64, openInput bool) {
-	in := oracle.DenseData(d, 1)
+	checkSettleN(r, d, rule, eps, delta, eta, openInput, 1)
+}
+
+func checkSettleN(r *fw.R, d []float64, rule canvas.FillRule, eps, delta, eta float64, openInput bool, curveN int) {
+	in := oracle.DenseData(d, curveN)
 	ps, skipped := probesFor(in, delta, eta)
 	r.Count("probes", int64(len(ps)))
 	r.Count("probes_skipped_near_boundary", int64(skipped))
@@ -348,6 +352,77 @@ func TwoHoles(combos [][2]bool) [][][]oracle.Pt {
 	return out
 }
 
+func CurvedShapes() [][]float64 {
+	arc := func(d []float64, rx, ry, phiDeg float64, large, sweep bool, x, y float64) []float64 {
+		f := 0.0
+		if large {
+			f += 1
+		}
+		if sweep {
+			f += 2
+		}
+		return append(d, oracle.CmdArc, rx, ry, phiDeg*math.Pi/180, f, x, y, oracle.CmdArc)
+	}
+	ellipse := func(cx, cy, rx, ry, phiDeg float64, ccw bool) []float64 {
+		c, sn := math.Cos(phiDeg*math.Pi/180), math.Sin(phiDeg*math.Pi/180)
+		x0, y0 := cx+rx*c, cy+rx*sn
+		x1, y1 := cx-rx*c, cy-rx*sn
+		d := []float64{oracle.CmdMove, x0, y0, oracle.CmdMove}
+		d = arc(d, rx, ry, phiDeg, false, ccw, x1, y1)
+		d = arc(d, rx, ry, phiDeg, false, ccw, x0, y0)
+		return append(d, oracle.CmdClose, x0, y0, oracle.CmdClose)
+	}
+	rrect := func(x, y, w, h, r float64) []float64 {
+		d := []float64{oracle.CmdMove, x + r, y, oracle.CmdMove, oracle.CmdLine, x + w - r, y, oracle.CmdLine}
+		d = arc(d, r, r, 0, false, true, x+w, y+r)
+		d = append(d, oracle.CmdLine, x+w, y+h-r, oracle.CmdLine)
+		d = arc(d, r, r, 0, false, true, x+w-r, y+h)
+		d = append(d, oracle.CmdLine, x+r, y+h, oracle.CmdLine)
+		d = arc(d, r, r, 0, false, true, x, y+h-r)
+		d = append(d, oracle.CmdLine, x, y+r, oracle.CmdLine)
+		d = arc(d, r, r, 0, false, true, x+r, y)
+		return append(d, oracle.CmdClose, x+r, y, oracle.CmdClose)
+	}
+	var out [][]float64
+	for _, c := range [][2]float64{{2, 2}, {3, 2}, {4, 3}} {
+		out = append(out, ellipse(c[0], c[1], 2, 2, 0, true), ellipse(c[0], c[1], 1, 1, 0, false), ellipse(c[0], c[1], 3, 1.5, 0, true), ellipse(c[0], c[1], 3, 1.5, 30, true))
+		out = append(out, rrect(c[0]-2, c[1]-1, 4, 2, 0.5))
+	}
+	out = append(out,
+		// lens
+		append(arc(arc([]float64{oracle.CmdMove, 0, 0, oracle.CmdMove}, 3, 3, 0, false, true, 4, 0), 3, 3, 0, false, true, 0, 0), oracle.CmdClose, 0, 0, oracle.CmdClose),
+		// quadratic and cubic blobs
+		[]float64{oracle.CmdMove, 0, 0, oracle.CmdMove, oracle.CmdQuad, 3, 5, 6, 0, oracle.CmdQuad, oracle.CmdQuad, 3, -2, 0, 0, oracle.CmdQuad, oracle.CmdClose, 0, 0, oracle.CmdClose},
+		[]float64{oracle.CmdMove, 1, 1, oracle.CmdMove, oracle.CmdCube, 1, 4, 5, 4, 5, 1, oracle.CmdCube, oracle.CmdCube, 4, -1, 2, -1, 1, 1, oracle.CmdCube, oracle.CmdClose, 1, 1, oracle.CmdClose},
+		// flat partners
+		oracle.ClosedData(rect(1, 1, 4, 3, true)), oracle.ClosedData(rect(2, 0, 3, 5, false)),
+	)
+	return out
+}
+
+// curvedFamily: every ordered pair of curved shapes as one two-contour path x 4 fill rules. The
+// path is flattened with canvas.Tolerance first, so probes within 3*Tolerance of an input curve
+// are undecidable.
+func curvedFamily() fw.Family {
+	sh := CurvedShapes()
+	n := int64(len(sh))
+	data := func(i int64) ([]float64, canvas.FillRule) {
+		k := i / 4
+		return append(append([]float64{}, sh[k/n]...), sh[k%n]...), rules[i%4]
+	}
+	return fw.Family{
+		Name: "two curved contours (circles, ellipses, rounded rectangles, lens, Bezier blobs) in one path", N: n * n * 4,
+		Check: func(i int64, r *fw.R) {
+			d, rule := data(i)
+			checkSettleN(r, d, rule, 1e-8, 3*canvas.Tolerance+1e-6, 1e-3, false, 256)
+		},
+		Desc: func(i int64) string {
+			d, rule := data(i)
+			return fmt.Sprintf("%s Settle(%v)", oracle.Fmt(d), rule)
+		},
+	}
+}
+
 func families(tier string) []fw.Family {
 	L3, L4 := oracle.Lattice(3), oracle.Lattice(4)
 	tri3r := oracle.ContoursModRotation(L3, 3)
@@ -358,6 +433,7 @@ func families(tier string) []fw.Family {
 		family("tri(L3)/rot + tri(L3)/rot (two contours)", pairs(tri3r, tri3r), 1, 1e-8, 1e-6, false),
 		family("rectilinear outer+inner+bar (L5), CCW/CW/CCW", rectilinear3(5, [][3]bool{{true, false, true}}, true), 1, 1e-8, 1e-6, false),
 		family("square with two separate inner rectangles (L7), both clockwise", TwoHoles([][2]bool{{false, false}}), 1, 1e-8, 1e-6, false),
+		curvedFamily(),
 		family("nested rectangles, 3 levels, all orientations", nestings(3), 1, 1e-8, 1e-6, false),
 		family("nested rectangles, 4 levels, all orientations", nestings(4), 1, 1e-8, 1e-6, false),
 		family("quad(L3)/rot, coarse grid eps=0.25 on x4 lattice", single(oracle.ContoursModRotation(L3, 4)), 4, 0.25, 0.5, false),
